@@ -4,9 +4,9 @@ from vf import gen, corecheck as cc, framework as fw, model_ctx, model_lifecycle
 RULE = ("ctx_lifecycle profile: 1-3 register/teardown cycles per process with every context flag combination, 0-6 modules in every "
         "state mix at teardown (idle, running, paused, stopped, persistent), a second m_ctx_register, finalize followed by a late "
         "registration, a dispatch-driven loop phase (deregistration while looping; last module leaving a looping context), teardown "
-        "through m_ctx_deregister from the main script and from stop callbacks, through deregistration of the last module, and calls "
+        "through m_ctx_deregister from the main script and from stop callbacks, through deregistration of the last module, replacement of the only module by a same-named one (the context stays), and calls "
         "on the context API and on retained module handles while the thread has no context - in half of the scenarios before the "
-        "very first registration of the process. Executed on the plain AND the asan build (the sanitizer runtime owns low thread-"
+        "very first registration of the process. ctx_gone profile: no reference but the registration handles, the last module leaves inside the final flush / in the last step while looping / after the loop. Executed on the plain AND the asan build (the sanitizer runtime owns low thread-"
         "specific keys, which is what an uncreated key collides with). Oracle: vf/model_ctx.py state (exists, persistent, finalised) "
         "against the return codes and the context observed after every record; every module ZOMBIE after an accepted teardown, with "
         "exactly one stop callback for RUNNING/PAUSED ones (C01's pairing rules are applied to these traces too); allocations and "
@@ -24,8 +24,11 @@ def run(tier):
         cases = []
         for i in range(n if variant == "plain" else n // 3):
             s = seed * 1000003 + i
-            x = i % 5
-            sc, prof = (gen.gen_ctxlife(s), "ctx_lifecycle") if x < 4 else (gen.gen_mixed(s, opts=dict(task_slots=[])), "mixed")
+            x = i % 6
+            if x == 5:
+                sc, prof = gen.gen_ctx_gone(s), "ctx_gone"
+            else:
+                sc, prof = (gen.gen_ctxlife(s), "ctx_lifecycle") if x < 4 else (gen.gen_mixed(s, opts=dict(task_slots=[])), "mixed")
             c = cc.Case()
             c.sc, c.profile, c.mode, c.seed = sc, prof, ("loop" if i % 2 else "dispatch"), s
             cases.append(c)
